@@ -15,11 +15,11 @@ func init() {
 	run.Register(&run.Check{
 		ID:    "C08",
 		Level: "exploration",
-		Rule: "cases: one resource set (NetworkPolicy worlds with many shared selectors, ANP/BANP worlds, Ingress/Route worlds, a large profile with up to 14 workloads and 10 policies) written in V layout variants (canonical file; documents shuffled into one file; one file per document with random names; random nested grouping; NetworkPolicy rules and peers permuted) and analysed R times per variant in fresh analyzers, for list txt/json/csv/md/dot x exposure off/on and diff txt/csv/md/dot against a second world; a slice is also run through the binary (fresh process, fresh hash seed); " +
+		Rule: "cases: first a sample of the repository's own manifest directories (3 repetitions x all outputs + the binary), then one generated resource set per case (NetworkPolicy worlds with many shared selectors, ANP/BANP worlds, Ingress/Route worlds, a large profile with up to 14 workloads and 10 policies) written in V layout variants (canonical file; documents shuffled into one file; one file per document with random names; random nested grouping; NetworkPolicy rules and peers permuted) and analysed R times per variant in fresh analyzers, for list txt/json/csv/md/dot x exposure off/on and diff txt/csv/md/dot against a second world; a slice is also run through the binary (fresh process, fresh hash seed); " +
 			"oracle: byte equality of every output with the first one of its kind; the number of distinct internal iteration orders actually seen (order of the returned []Peer slice) is measured per input; " +
 			"non-trivial = at least 3 workload peers, a non-empty report, and more than one distinct iteration order observed; distinct = world hash",
 		Assumptions:       []string{"values inside one selector and ports inside one rule are not permuted (the statement names documents, files, rules and peers)", "each semantic selector has one spelling per world except in the committed witness of finding C08-selector-spelling"},
-		NumCases:          func(tier string, _ int64) int { return tierN(tier, 64, 3000) },
+		NumCases:          func(tier string, _ int64) int { return tierN(tier, 76, 3070) },
 		Run:               runC08,
 		MinNonTrivial:     25,
 		MinEffectiveShare: 0.5,
@@ -105,6 +105,14 @@ func runC08(c *run.Ctx) {
 	g := c.R("world")
 	if c.Idx == 0 {
 		runC08Witness(c)
+		return
+	}
+	nf := 12
+	if c.Tier == "thorough" {
+		nf = 70
+	}
+	if c.Idx <= nf { // the repository's own manifest directories: repetitions in fresh analyzers and fresh processes
+		runC08Fixture(c, c.Idx-1)
 		return
 	}
 	w, fam := c08World(g, c.Idx%4)
@@ -268,4 +276,58 @@ func runC08Witness(c *run.Ctx) {
 	_ = w.Write(dirB, nil)
 	variants := []c08Variant{{"np-a-first", w, world.LayoutCanonial, false}, {"np-b-first", rev, world.LayoutCanonial, false}}
 	compareRuns(c, w, variants, 2, dirB, true, "c08.bytes", "mixed-selector-spelling")
+}
+
+func runC08Fixture(c *run.Ctx, k int) {
+	r := c.Res
+	dir := fixtureAt(c.Repo, "quick", k*5)
+	dirB := fixtureAt(c.Repo, "quick", k*5+1)
+	if dir == "" {
+		r.Discarded = "no fixtures"
+		return
+	}
+	r.Name = "fixture " + dir
+	r.Hash = r.Name
+	r.Ev("fixture_inputs", 1)
+	first := map[string]string{}
+	orders := map[string]bool{}
+	nonEmpty := false
+	for rep := 0; rep < 3; rep++ {
+		ord := c08Outputs(r, dir, dirB, true, func(key, out string, exposure, isDiff bool) {
+			r.Ev("outputs_compared", 1)
+			r.Ev("bytes_compared", int64(len(out)))
+			if exposure {
+				r.Ev("exposure_outputs_compared", 1)
+			}
+			if isDiff {
+				r.Ev("diff_outputs_compared", 1)
+			}
+			if len(out) > 10 && out != "ERROR" {
+				nonEmpty = true
+			}
+			if prev, ok := first[key]; !ok {
+				first[key] = out
+			} else if prev != out {
+				r.Violate("c08.bytes", "c08.bytes:fixture:differs", "byte-identical "+key+" output on every run", firstDiffText(prev, out), dir)
+			}
+		})
+		orders[ord] = true
+	}
+	for _, exp := range []bool{false, true} {
+		args := []string{"list", "--dirpath", dir, "-q", "-o", "txt"}
+		if exp {
+			args = append(args, "--exposure")
+		}
+		cli := observe.RunCLI(c.Bin, c.Scratch(), args...)
+		want := first[fmt.Sprintf("list/txt/exposure=%v", exp)]
+		r.Ev("binary_outputs_compared", 1)
+		if want != "ERROR" && cli.Stdout != want {
+			r.Violate("c08.bytes", "c08.bytes:fixture:binary-differs", "binary stdout identical to the library runs", firstDiffText(want, cli.Stdout), dir)
+		}
+	}
+	if len(orders) > 1 {
+		r.Ev("inputs_with_several_iteration_orders", 1)
+	}
+	r.Effective = nonEmpty
+	r.NonTrivial = nonEmpty && len(orders) > 1
 }
